@@ -10,6 +10,9 @@
 #include "inst.h"
 #include "xor_eq.h"
 #include "erasurecode_backend.h"
+#ifdef L1XOR
+#include "xor_code.h"
+#endif
 #ifndef LO
 #define LO 1
 #endif
@@ -20,8 +23,15 @@ static int pop(uint32_t x) { int c = 0; for (int i = 0; i < 32; i++) c += (x >> 
 
 int main(void)
 {
+#ifdef L1XOR
+    /* flat-XOR planner at the builtin library's interface (the public wrapper and the adapter only
+     * forward the three lists; their return-code handling is checked by the API-level obligations) */
+    xor_code_t *code = init_xor_hd_code(K, M, HD);
+    ASSUME(code != NULL);
+#else
     int desc = mk_instance();
     ASSUME(desc > 0);
+#endif
     uint32_t R = vin_u32(), X = vin_u32();
     ASSUME((R >> N) == 0 && (X >> N) == 0 && (R & X) == 0 && R != 0);
     int tot = pop(R) + pop(X);
@@ -39,7 +49,11 @@ int main(void)
     /* pad after the terminator with other values so a missing terminator test is not masked */
     for (int i = 0; i <= N; i++) { if (i >= nr) rl[i] = -1; if (i >= nx) xl[i] = -1; }
     for (int i = 0; i < N + 2; i++) need[i] = 77;
+#ifdef L1XOR
+    int rc = code->fragments_needed(code, rl, xl, need);
+#else
     int rc = liberasurecode_fragments_needed(desc, rl, xl, need);
+#endif
 #ifdef BEYOND
     CHECK(rc <= 0, "fragments_needed returns 0 or a negative error");
 #else
@@ -87,7 +101,11 @@ int main(void)
         CHECK(cnt == K, "Reed-Solomon answer must name exactly k fragments");
 #endif
     }
+#ifdef L1XOR
+    free(code);
+#else
     CHECK(liberasurecode_instance_destroy(desc) == 0, "destroy");
+#endif
     WITNESS();
     return 0;
 }
